@@ -21,6 +21,15 @@ CLAIMED = {
  "C10": dict(cat="model_checking", ref="6 C10",
    tech="TLC: operational macro expansion (comprehension machine) = declarative fold (CelDen) over all lists up to a bound; generated programs replayed; trace validation of random macro programs",
    text="For all five macros and every context list over a small alphabet (length <=2 quick, <=5 thorough) TLC checks that running the parser-style expansion on the abstract machine equals the defining fold (value, error, visited elements, host log). Every (list, program) pair is then executed by cel-rust and validated."),
+ "C08": dict(cat="model_checking", ref="6 C08",
+   tech="TLC: Num64 checked-arithmetic definitions exhaustively compared with native arithmetic at width 5/6 and algebraic laws on a 64-bit boundary set; trace validation (CelOpTrace) of every boundary pair executed by cel-rust",
+   text="The definition 'exact result if representable, else overflow/div0' is model-checked exhaustively at small width and on all pairs of a 64-bit boundary set ((a/b)*b+a%b=a, sign of remainder, commutativity, never out of range). cel-rust's outcome for every ordered pair of ~55 i64 and ~30 u64 boundary values under + - * / % and unary minus -- as literals, as variables and through the host-side operator impls -- plus mixed kinds and random pairs must equal the definition."),
+ "C09": dict(cat="model_checking", ref="6 C09",
+   tech="TLC: coherence laws of CelValue Eq/Cmp over a boundary pool (pairs, triples); the implementation's complete observed relation table checked by TLC against Cmp/Eq cell by cell and against the laws themselves (CelCmpLaws)",
+   text="Equality/ordering are specified on exact denotations (BigInt vs exact dyadic doubles) and their coherence is model-checked. cel-rust's full table of == != < <= > >= over ~80 boundary values (every ordered pair), in/min/max and the host-side PartialEq/PartialOrd are validated against it; the laws (negation, trichotomy, symmetry, transitivity over every triple, NaN) are re-checked on the observed table independently of the spec's cells."),
+ "C14": dict(cat="model_checking", ref="6 C14",
+   tech="TLC: map/list model (CelMapMC) over all key-insertion sequences and queries; trace validation of every small map x query key x query form executed by cel-rust",
+   text="In the model all five query forms are functions of one key-presence notion with int/uint twins identified, literals keep exactly their entries, list indexing and additivity laws hold. cel-rust answers every query form for every map with <=4 keys of a 10-key alphabet (twins and zero included) and 18 query keys, all lists up to length 5 with all indices incl. extremes, and random concatenations; each answer must equal the model's."),
 }
 
 def main():
